@@ -25,7 +25,7 @@ ASSUMPTIONS = ['dates are only placed under COUNT / COUNTBLANK', 'AND / OR only 
                'AVERAGE / MIN / MAX over nothing numeric are not asserted; text and boolean literal arguments are not generated',
                'floats are multiples of 1/4 so that sums are exact in any order']
 
-COLS = 'ABCDEF'
+COLS = 'ABCDEFGHIJ'
 NUMERIC_FNS = ('SUM', 'AVERAGE', 'MIN', 'MAX')
 
 
@@ -52,7 +52,7 @@ def kind(v):
 def area_cells(spec, arg):
     """Coordinates (sheet, col0, row0) of an argument, row-major, one entry per mention."""
     sheet = arg.get('sheet') or 'S'
-    grid = spec['grid'] if sheet == 'S' else spec['grid2']
+    grid = grid_of(spec, sheet)
     nrows, ncols = len(grid), len(grid[0])
     if arg['t'] == 'cell':
         return [(sheet, arg['c'], arg['r'])]
@@ -62,9 +62,17 @@ def area_cells(spec, arg):
     return [(sheet, c, r) for r in range(arg['r0'], arg['r1'] + 1) for c in range(arg['c0'], arg['c1'] + 1)]
 
 
+def grid_of(spec, sheet):
+    return {'S': spec['grid'], 'T': spec.get('grid2'), 'U': spec.get('grid3')}[sheet]
+
+
 def content(spec, coord):
+    """what the cell holds now: the last override of the coordinate, else the workbook cell, else nothing (also beyond the used range)"""
     sheet, c, r = coord
-    grid = spec['grid'] if sheet == 'S' else spec['grid2']
+    for o in reversed(spec.get('overrides') or []):
+        if (o['sheet'], o['c'], o['r']) == (sheet, c, r):
+            return o['v']
+    grid = grid_of(spec, sheet)
     if r < len(grid) and c < len(grid[r]):
         return grid[r][c]
     return None
@@ -95,7 +103,7 @@ def fold(spec, fn, args):
         if a['t'] == 'num':
             scalars.append(a['v'])
         elif a['t'] == 'cmp':
-            v = content(spec, ('S', a['c'], a['r']))
+            v = content(spec, (a.get('sheet') or 'S', a['c'], a['r']))
             if kind(v) not in ('num', 'blank'):
                 raise Skip('comparison of non-number')
             x = 0 if v is None else v
@@ -151,6 +159,10 @@ def build(spec):
     if spec.get('grid2'):
         sheets.append({'title': 'T', 'cells': {}})
         grids.append(('T', spec['grid2']))
+    if spec.get('grid3'):
+        # a sheet that holds data only (no formula is placed there): areas over it may reach beyond its used range
+        sheets.append({'title': 'U', 'cells': {}})
+        grids.append(('U', spec['grid3']))
     for (title, grid), sh in zip(grids, sheets):
         for r, row in enumerate(grid):
             for c, v in enumerate(row):
@@ -162,7 +174,7 @@ def build(spec):
     # totals of subtotals: a column of =SUM(row) formulas next to the grid and aggregates over that column (the first cell of the
     # area is itself a formula with an area inside)
     grid = spec['grid']
-    if spec.get('subtotals') and not any(kind(v) == 'date' for row in grid for v in row) and len(grid[0]) < 7:
+    if spec.get('subtotals') and not spec.get('overrides') and not any(kind(v) == 'date' for row in grid for v in row) and len(grid[0]) < 7:
         ncols_, nrows_ = len(grid[0]), len(grid)
         col = wbk.get_column_letter(ncols_ + 1)
         sums = []
@@ -179,7 +191,7 @@ def build(spec):
             on.append('S')
     for fs in spec['formulas']:
         todo.append((fs, 'S'))
-        if spec.get('grid2') and all(not a.get('sheet') and a['t'] in ('area', 'cell', 'col', 'num') for a in fs['args']) \
+        if spec.get('grid2') and not spec.get('overrides') and all(not a.get('sheet') and a['t'] in ('area', 'cell', 'col', 'num') for a in fs['args']) \
                 and any(a['t'] != 'num' for a in fs['args']):
             # the same text on the second sheet: unqualified references mean the sheet of the formula
             todo.append((fs, 'T'))
@@ -206,7 +218,14 @@ def build(spec):
             on.append(home)
             if home == 'T':
                 q_.tags.append('formula-on-second-sheet')
-    return {'sheets': sheets, 'queries': qs, 'on': on, 'first_col': 12, 'ncols': 64}  # one row: whole-column areas must not see the formula block
+    ov = [(o['sheet'], COLS[o['c']], str(o['r'] + 1), o['v']) for o in spec.get('overrides') or []]
+    if ov:
+        for q_ in qs:
+            q_.tags.append('overrides')
+            if any(kind(grid_of(spec, o['sheet'])[o['r']][o['c']] if o['r'] < len(grid_of(spec, o['sheet'])) and o['c'] < len(grid_of(spec, o['sheet'])[0]) else None)
+                   == 'blank' for o in spec['overrides']):
+                q_.tags.append('override-of-a-blank-cell')
+    return {'sheets': sheets, 'queries': qs, 'on': on, 'first_col': 12, 'ncols': 64, **({'overrides': ov} if ov else {})}  # one row: whole-column areas must not see the formula block
 
 
 def run_case(spec):
@@ -236,9 +255,23 @@ def strategy():
             r2, c2 = draw(st.integers(1, 4)), draw(st.integers(1, 4))
             grid2 = [[draw(cellst) for _ in range(c2)] for _ in range(r2)]
 
+        grid3 = None
+        if draw(st.integers(0, 2)) == 0:
+            r3, c3 = draw(st.integers(1, 4)), draw(st.integers(1, 4))
+            grid3 = [[draw(cellst) for _ in range(c3)] for _ in range(r3)]
+            if all(v is None for row in grid3 for v in row):
+                grid3[0][0] = 1
+
         def area(sheet):
-            g = grid if sheet is None else grid2
+            g = {None: grid, 'T': grid2, 'U': grid3}[sheet]
             nr, nc = len(g), len(g[0])
+            if sheet == 'U':
+                # rectangles that reach up to three columns / rows beyond the used range of the data-only sheet: blank cells of the area
+                c0, r0 = draw(st.integers(0, nc)), draw(st.integers(0, nr))
+                c1, r1 = draw(st.integers(c0, nc + 2)), draw(st.integers(r0, nr + 2))
+                if draw(st.booleans()):
+                    c0, r0 = 0, draw(st.integers(0, nr - 1))
+                return {'t': 'area', 'sheet': 'U', 'c0': c0, 'r0': r0, 'c1': c1, 'r1': r1}
             t = draw(st.sampled_from(['area', 'area', 'area', 'col', 'cell', 'row', 'colrange']))
             if t == 'cell':
                 return {'t': 'cell', 'sheet': sheet, 'c': draw(st.integers(0, nc - 1)), 'r': draw(st.integers(0, nr - 1))}
@@ -280,10 +313,23 @@ def strategy():
                     args.append({'t': 'cmp', 'c': draw(st.integers(0, ncols - 1)), 'r': draw(st.integers(0, nrows - 1)),
                                  'op': draw(st.sampled_from(['<', '>', '='])), 'v': draw(st.integers(-2, 2))})
                 else:
-                    args.append(area('T' if grid2 and draw(st.integers(0, 3)) == 0 else None))
+                    pick = draw(st.integers(0, 5))
+                    args.append(area('T' if grid2 and pick == 0 else 'U' if grid3 and pick in (1, 2) else None))
             formulas.append({'fn': fn, 'args': args, 'embed': draw(st.integers(0, 4)) == 0,
                              'split_partner': draw(st.booleans())})
-        return {'grid': grid, 'grid2': grid2, 'formulas': formulas, 'subtotals': draw(st.integers(0, 2)) == 0}
+        overrides = []
+        if draw(st.integers(0, 3)) == 0:
+            # contents planted after translation: the aggregates fold what the cells hold now
+            for _ in range(draw(st.integers(1, 4))):
+                sh = draw(st.sampled_from(['S', 'S'] + (['T'] if grid2 else []) + (['U', 'U'] if grid3 else [])))
+                g = {'S': grid, 'T': grid2, 'U': grid3}[sh]
+                blanks = [(c, r) for r in range(len(g)) for c in range(len(g[0])) if g[r][c] is None]
+                if blanks and draw(st.booleans()):
+                    c, r = draw(st.sampled_from(blanks))
+                else:
+                    c, r = draw(st.integers(0, len(g[0]) - 1 + (2 if sh == 'U' else 0))), draw(st.integers(0, len(g) - 1 + (2 if sh == 'U' else 0)))
+                overrides.append({'sheet': sh, 'c': c, 'r': r, 'v': draw(st.one_of(num, num, st.sampled_from(WORDS), st.none(), st.booleans()) if flavour != 'logic' else boolnum)})
+        return {'grid': grid, 'grid2': grid2, 'grid3': grid3, 'formulas': formulas, 'subtotals': draw(st.integers(0, 2)) == 0, 'overrides': overrides}
     return spec()
 
 
